@@ -215,13 +215,22 @@ func streamCase(c *kit.Case, faults bool) {
 	})
 	var seq atomic.Int64
 	var pubMu sync.Mutex
+	mixedDelta := c.Index%3 == 0 // a third of the stream cases mix publishes with and without the delta option
 	publish := func() {
 		pubMu.Lock() // payload generation shares state; publish order = generation order
 		defer pubMu.Unlock()
-		id := fmt.Sprintf("m%d", seq.Add(1))
+		n := seq.Add(1)
+		id := fmt.Sprintf("m%d", n)
 		data := gen.next(id)
 		log.put(id, data)
-		opts := []centrifuge.PublishOption{centrifuge.WithDelta(true)}
+		opts := []centrifuge.PublishOption{}
+		if !mixedDelta || (n*2654435761>>7)%3 != 0 {
+			opts = append(opts, centrifuge.WithDelta(true))
+		} else {
+			// a publisher that does not ask for delta: subscribers get (and hold) the full payload,
+			// and the next delta must be computed against it
+			c.Count("publications_without_delta_option_between_delta_ones", 1)
+		}
 		if withHistory {
 			opts = append(opts, centrifuge.WithHistory(50, time.Minute))
 		}
@@ -512,11 +521,11 @@ func TestC14(t *testing.T) {
 	kit.Main(t, kit.Spec{
 		ID:     "C14",
 		Bubble: true,
-		Rule: "3 of 5 cases: a stream channel published with delta (payloads that mostly share their bytes, sometimes unrelated / empty / binary-looking for all-Protobuf cases), with or without history, with or without the channel medium's latest-publication retention, 1-3 subscribers that negotiated fossil delta (JSON or Protobuf, positioned or not, optionally reconnecting with recovery), 1 of 5 with dropped / duplicated / held-back PUB/SUB deliveries; 2 of 5 cases: a map channel with delta, client following the state/stream/live protocol with concurrent writes, values tracked per key. " +
+		Rule: "3 of 5 cases: a stream channel published with delta (payloads that mostly share their bytes, sometimes unrelated / empty / binary-looking for all-Protobuf cases), with or without history, with or without the channel medium's latest-publication retention, in a third of them with publishes that do not ask for delta mixed in, 1-3 subscribers that negotiated fossil delta (JSON or Protobuf, positioned or not, optionally reconnecting with recovery), 1 of 5 with dropped / duplicated / held-back PUB/SUB deliveries; 2 of 5 cases: a map channel with delta, client following the state/stream/live protocol with concurrent writes, values tracked per key. " +
 			"Oracle: the client model applies every delivered publication (fossil delta to what it holds, or replace) and the result must be byte-identical to the published payload carrying that id; a delta without a base or one that does not apply is a violation. Signature = configuration x per-subscriber (#deltas, #full payloads).",
 		Assumptions: []string{"fossil-delta.Apply from the module the repository depends on is trusted", "JSON transports carry delta-negotiated data as JSON strings; published JSON payloads are never themselves JSON strings", "shared-poll keyed delivery is covered by C25"},
 		Cases:       map[string]int{"quick": 1500, "thorough": 30000},
-		RequireCounters: []string{"stream_deltas_applied", "stream_full_payloads", "recovered_publications_checked", "stream_deltas_applied_under_faults", "nonpositioned_medium_deltas", "map_deltas_applied", "map_full_values"},
+		RequireCounters: []string{"stream_deltas_applied", "stream_full_payloads", "recovered_publications_checked", "stream_deltas_applied_under_faults", "nonpositioned_medium_deltas", "map_deltas_applied", "map_full_values", "publications_without_delta_option_between_delta_ones"},
 		Run: runCase,
 	})
 }
